@@ -95,6 +95,9 @@ FileLen(a, f) == IF f.kind = "truncate" THEN f.n ELSE IF f.kind = "absent" THEN 
 Inside(r, len) == r.end <= len
 \* the data-size field as the file states it
 StatedSize(a, f, j) == IF f.kind = "corruptlen" /\ f.i = j THEN a.entries[j].size + f.delta ELSE a.entries[j].size
+\* the field is an unsigned 32 bit number: a negative value here stands for 2^32 + value, which is larger than
+\* any file of the model (TLC integers are 32 bit, so the wrapped value itself is not representable)
+Huge(a, f, j) == StatedSize(a, f, j) < 0
 \* where a reader that accumulates the stated sizes behind the header table finds entry j
 RECURSIVE DerivedOff(_, _, _)
 DerivedOff(a, f, j) == IF j = 1 THEN DataStart(a) ELSE DerivedOff(a, f, j - 1) + StatedSize(a, f, j - 1)
@@ -107,6 +110,7 @@ TableInside(a, f) == f.kind # "absent" /\ DataStart(a) <= FileLen(a, f)
 Intact(a, f, j) ==
     /\ TableInside(a, f)
     /\ StatedSize(a, f, j) = a.entries[j].size
+    /\ \A k \in 1..j : ~Huge(a, f, k)
     /\ DerivedOff(a, f, j) + a.entries[j].size <= FileLen(a, f)
     /\ (a.entries[j].size = 0 \/ DerivedOff(a, f, j) = DataOff(a, j))
 IntactSet(a, f) == { j \in 1..NE(a) : Intact(a, f, j) }
@@ -122,7 +126,7 @@ PhaseAt(a, n) ==
     ELSE "Checksum"
 
 \* does a reader that follows the stated sizes run past the end of the file?
-Overrun(a, f) == \E j \in 1..NE(a) : DerivedOff(a, f, j) + StatedSize(a, f, j) > FileLen(a, f)
+Overrun(a, f) == \E j \in 1..NE(a) : Huge(a, f, j) \/ DerivedOff(a, f, j) + StatedSize(a, f, j) > FileLen(a, f)
 
 FaultClass(a, f) ==
     IF f.kind = "none" THEN "None"
